@@ -333,6 +333,44 @@ func init() {
 	}
 }
 
+func init() {
+	// time: instants are an abstract int64 (field ext of time.Time); arbitrary but monotone is not assumed
+	models["time.Now"] = func(it *Interp, fr *frame, args []Value, fn *ssa.Function) Value {
+		t := it.zero(fn.Signature.Results().At(0).Type()).(Struct)
+		v := it.ctx.Var(fmt.Sprintf("now%d", it.nInputs), 64)
+		it.nInputs++
+		t[1] = v
+		return t
+	}
+	models["time.Since"] = func(it *Interp, fr *frame, args []Value, fn *ssa.Function) Value {
+		v := it.ctx.Var(fmt.Sprintf("dur%d", it.nInputs), 64)
+		it.nInputs++
+		it.constrain(it.ctx.Bin(OpSle, it.ctx.Int(0), v), v, 0)
+		return v
+	}
+	models["(time.Duration).Milliseconds"] = func(it *Interp, fr *frame, args []Value, fn *ssa.Function) Value {
+		return it.ctx.Bin(OpSDiv, args[0].(*Term), it.ctx.Int(1000000))
+	}
+	cmp := func(op Op, swap bool) modelFn {
+		return func(it *Interp, fr *frame, args []Value, fn *ssa.Function) Value {
+			a, b := args[0].(Struct)[1].(*Term), args[1].(Struct)[1].(*Term)
+			if swap {
+				a, b = b, a
+			}
+			if op == OpEq {
+				return it.ctx.Eq(a, b)
+			}
+			return it.ctx.Bin(op, a, b)
+		}
+	}
+	models["(time.Time).Before"] = cmp(OpSlt, false)
+	models["(time.Time).After"] = cmp(OpSlt, true)
+	models["(time.Time).Equal"] = cmp(OpEq, false)
+	models["(time.Time).IsZero"] = func(it *Interp, fr *frame, args []Value, fn *ssa.Function) Value {
+		return it.ctx.Eq(args[0].(Struct)[1].(*Term), it.ctx.Int(0))
+	}
+}
+
 func (it *Interp) libGlobal(pkg, name string) *ssa.Global {
 	p := it.prog.ImportedPackage(pkg)
 	if p == nil {
